@@ -547,6 +547,36 @@ pub fn run(o: &DriveOpts, out: &mut dyn Write, tid: usize) -> Value {
                 }
                 None => None,
             }
+        } else if profile == "script" && rec.events % 140 < 3 && rec.events > 20 && ngroups < 13 && {
+            let sn = w.g(0).snap();
+            (sn.next_v..sn.capacity).filter(|i| sn.slots[*i].as_ref().map(|s| s.tag == 0).unwrap_or(false)).count() >= 6
+        } {
+            // a script that fails AFTER its variables got their ids and formed a group with an unread datum; the group is then
+            // read and collected and the allocator asked again: it must not hand those ids out a second time
+            let before = vw.present.clone();
+            let l = labels.iter().find(|a| a.is_ascii() && !a.contains('-')).cloned().unwrap_or_else(|| "foo".to_string());
+            let prog = json!([{"c": "ADD", "v": {"k": "var", "name": "a"}}, {"c": "ADD", "v": {"k": "var", "name": "b"}},
+                              {"c": "BIND", "v1": {"k": "var", "name": "a"}, "v2": {"k": "var", "name": "b"}, "a": l},
+                              {"c": "PUT", "v": {"k": "var", "name": "b"}, "d": "CA-FE"}, {"c": "ADD", "v": {"k": "lit", "id": 0}}]);
+            let text = format!("ADD($a); ADD($b);\nBIND($a, $b, {l}); PUT($b, CA-FE);\nXADD(1);");
+            ok = rec.call(&mut w, HCall { h: 0, call: Call::Deploy { text, prog, fault_at: 5 } });
+            let after = w.g(0).keys().unwrap_or_default();
+            let newv: Vec<usize> = after.iter().copied().filter(|v| !before.contains(v)).collect();
+            if ok && newv.len() == 2 {
+                // the second variable holds the datum: reading it collects both
+                for v in &newv {
+                    if ok && w.g(0).keys().unwrap_or_default().contains(v) {
+                        ok = rec.call(&mut w, HCall { h: 0, call: Call::Data { v: *v } });
+                    }
+                }
+                if ok {
+                    ok = rec.call(&mut w, HCall { h: 0, call: Call::NextId });
+                }
+                if ok {
+                    ok = rec.call(&mut w, HCall { h: 0, call: Call::NextId });
+                }
+            }
+            continue;
         } else if profile == "script" && r > 0.90 && {
             let sn = w.g(0).snap();
             (sn.next_v..sn.capacity).filter(|i| sn.slots[*i].as_ref().map(|s| s.tag == 0).unwrap_or(false)).count() >= 5
